@@ -76,7 +76,8 @@ def grid_cases(rng, tier):
     from harness import scenarios as _sc
     _sl = dict(_sc.single_lattice(rng, 'quick'))
     for k in ('opt-dd-regions-adiabatic-gravity', 'opt-uctd-grid-regions',
-              'opt-se2geo', 'opt-3duct-convapprox'):
+              'opt-se2geo', 'opt-3duct-convapprox', 'opt-five-regions',
+              'opt-only-upper-region', 'opt-bare-kc', 'opt-eng-se2-mit'):
         out.append((k, _sl[k]))
     if tier == 'thorough':
         for i in range(8):
